@@ -255,7 +255,7 @@ def new_effect(doc, st, r):
             kw[prop] = pval(r, 0, 160)
     if r.random() < 0.3:
         kw['opaque_mode'] = material.OPAQUE_MODE.RGB_ZERO
-    if params and r.random() < 0.4:
+    if params and r.random() < 0.6:
         kw['bumpmap'] = material.Map(params[1], r.choice(['UV', 'BUMPUV']))
     return material.Effect(st.fresh('effect'), params, r.choice(['phong', 'lambert', 'blinn', 'constant']),
                            double_sided=r.random() < 0.3, **kw)
@@ -403,11 +403,53 @@ def exh_prepare(doc, st, site):
         doc.effects.append(material.Effect('exheffect', [], 'phong'))
 
 
+def relocate_optional(root, r):
+    """optional content moved to every other place the loader accepts it (all of them valid COLLADA):
+    the <extra> holding the bump <texture> under <technique>, <profile_COMMON> or <effect>; <newparam>
+    elements in the profile or inside <technique>; the double_sided <extra> of an effect under the
+    profile, the technique or the effect; that of a geometry under <geometry> or inside <mesh>"""
+    def parent_of(top, node):
+        for p_ in top.iter():
+            if node in list(p_):
+                return p_
+        return None
+    for eff in root.iter(T('effect')):
+        prof = eff.find(T('profile_COMMON'))
+        tec = prof.find(T('technique')) if prof is not None else None
+        if tec is None:
+            continue
+        places = {'technique': tec, 'profile': prof, 'effect': eff}
+        for marker in ('texture', 'double_sided'):
+            for ex in [x for x in eff.iter(T('extra')) if x.find('.//' + T(marker)) is not None][:1]:
+                where = r.choice(['technique', 'profile', 'effect', 'stay'])
+                if where == 'stay':
+                    continue
+                par = parent_of(eff, ex)
+                if par is None or par is places[where]:
+                    continue
+                par.remove(ex)
+                places[where].append(ex)         # <extra> comes last in all three
+        # some parameters live inside <technique> (in front of the shader)
+        nps = prof.findall(T('newparam'))
+        if nps and r.random() < 0.4:
+            cut = r.randint(0, len(nps) - 1)
+            for i, np_ in enumerate(nps[cut:]):
+                prof.remove(np_)
+                tec.insert(i, np_)
+    for geom in root.iter(T('geometry')):
+        mesh = geom.find(T('mesh'))
+        for ex in [x for x in geom.findall(T('extra')) if x.find('.//' + T('double_sided')) is not None]:
+            if mesh is not None and r.random() < 0.5:
+                geom.remove(ex)
+                mesh.append(ex)
+
+
 def split_libraries(data, r):
     """the same document with the members of every managed library spread over TWO library
     elements of that kind (legal COLLADA; the loader reads all of them)"""
     root = ET.fromstring(data)
     ET.register_namespace('', NS)
+    relocate_optional(root, r)
     for _, libname, _ in LIBS:
         lib = root.find(T(libname))
         if lib is None or len(lib) < 2 or r.random() < 0.15:
@@ -486,6 +528,7 @@ def build_base(base, st):
         doc.assetInfo.title = 'T' + st.fresh('t')
         for k in range(r.choice([1, 2, 3, 4])):
             doc.assetInfo.contributors.append(asset.Contributor(author='me%d' % k, authoring_tool='tool'))
+    repair_instances(doc)
     if base.get('split') is not None:
         # written, its libraries split in two, and LOADED again: a loaded document with two
         # library elements of one kind
@@ -975,8 +1018,10 @@ def apply_op(doc, st, op, out):
             if r.random() < 0.3:
                 e.shadingtype = r.choice(['phong', 'lambert', 'blinn', 'constant'])
             e.double_sided = not e.double_sided
-            if r.random() < 0.4:
-                e.opaque_mode = r.choice([material.OPAQUE_MODE.A_ONE, material.OPAQUE_MODE.RGB_ZERO])
+            if r.random() < 0.5:
+                # the other opaque mode (RGB_ZERO carries an attribute that has to come and go)
+                e.opaque_mode = (material.OPAQUE_MODE.A_ONE if e.opaque_mode == material.OPAQUE_MODE.RGB_ZERO
+                                 else material.OPAQUE_MODE.RGB_ZERO)
             k = r.random()
             if k < 0.25 and doc.images:
                 # a new surface/sampler pair, at the end or in front of the existing parameters
@@ -1016,6 +1061,27 @@ def apply_op(doc, st, op, out):
                 v = getattr(e, prop)
                 if isinstance(v, material.Map) and r.random() < 0.5:
                     v.texcoord = r.choice(['UV', 'TEX0', 'TEX1'])
+        elif what == 'unset':
+            # removal edits: every optional value of one object of each kind goes away
+            from collada import light
+            everything = bool(op.get('all'))
+            for e in (list(doc.effects) if everything else list(doc.effects)[op['pos'] % max(1, len(doc.effects)):][:1]):
+                e.bumpmap = None
+                e.double_sided = False
+                e.opaque_mode = material.OPAQUE_MODE.A_ONE
+                for p in e.params:
+                    if isinstance(p, material.Sampler2D):
+                        p.minfilter = p.magfilter = None
+            for g_ in (list(doc.geometries) if everything else list(doc.geometries)[op['pos2'] % max(1, len(doc.geometries)):][:1]):
+                g_.double_sided = False
+            for l in (list(doc.lights) if everything else list(doc.lights)[op['pos3'] % max(1, len(doc.lights)):][:1]):
+                for a_ in ('constant_att', 'linear_att', 'quad_att', 'zfar', 'falloff_ang', 'falloff_exp'):
+                    if hasattr(l, a_):
+                        setattr(l, a_, None)
+            a = doc.assetInfo
+            a.title = a.subject = a.keywords = a.revision = None
+            for c in a.contributors:
+                c.author = c.authoring_tool = c.comments = c.copyright = c.source_data = None
         elif what == 'image' and doc.images:
             doc.images[op['pos'] % len(doc.images)].path = r.choice(['x.png', './y/z.jpg'])
         elif what == 'asset':
